@@ -938,6 +938,24 @@ def _as_load(t: ast.AST) -> ast.AST:
     return t2
 
 
+def dict_entries(st: "State", D: Term, upto: "Event | None" = None) -> dict[Any, Term]:
+    """constant-keyed entries of the dict value D as built along the path: a display, `dict(k=v, ...)`, or an empty
+    container filled by `D[k] = v` stores (those logged before the event `upto`)"""
+    out: dict[Any, Term] = {}
+    if D[0] == "dict":
+        for kv in D[1:]:
+            if kv[0][0] == "const":
+                out[kv[0][1]] = kv[1]
+    elif D[0] == "pcall" and D[1] == "dict" and not D[2]:
+        for k, v in D[3]:
+            out[k] = v
+    evs = st.events if upto is None else st.events[:st.events.index(upto)]
+    for e in evs:
+        if e.kind == "store" and e.recv == D and e.key is not None and e.key[0] == "const":
+            out[e.key[1]] = e.value
+    return out
+
+
 def evaluator(repo: Repo, fi: FuncInfo, oracle=None, **kw: Any) -> Evaluator:
     from .cfg import Oracle, build_cfg
 
